@@ -233,6 +233,16 @@ class Conn:
         return out
 
 
+def quiet_logging():
+    """every test master installs a log handler bound to its own (soon closed) event loop; an addon error logged by
+    addonmanager.safecall would then raise from a stale handler and abort the hook chain — drop those handlers"""
+    import logging
+    from mitmproxy.log import MitmLogHandler
+    root = logging.getLogger()
+    for h in list(root.handlers):
+        if isinstance(h, MitmLogHandler): root.removeHandler(h)
+
+
 class Check(PropertyCheck):
     prop = "C24"
     design_ref = "§5 C24"
@@ -245,12 +255,18 @@ class Check(PropertyCheck):
                   "route_creds_only_to_proxy_or_reverse_target (trace induction with a per-connection invariant: tunnel phase ⇒ member "
                   "of UpstreamAuth.tunneled; pool connections have CONNECT-first = via ∧ tls; via ⇒ upstream mode), "
                   "route_conn_matches_request (spec of the connection handed out, reuse included), transparent_dest_ignores_host "
-                  "(Host vs destination), scheme_change_uses_other_connection. Both models are tied end to end through the full layer "
+                  "(Host vs destination), scheme_change_uses_other_connection; both confinement theorems also for histories in which "
+                  "upstream_auth is changed at runtime between any two events (creds_confined_under_option_changes[_from_start], "
+                  "route_creds_confined_under_option_changes). Both models are tied end to end through the full layer "
                   "stack with the real NextLayer, UpstreamAuth, Proxyserver (and TlsConfig) addons: per step the place, kind and "
                   "credential field of every request head written upstream (TLS sessions decrypted by an in-memory origin), the "
                   "client-side outcome, and — predicted, not taken from observation — flow.server_conn's address, tls, sni, via, its "
                   "order of first use and whether it was reused.")
-    level_note = ("trusted: Lean kernel; hand model tied differentially (validated, not verified). TLS towards the origin IS "
+    level_note = ("trusted: Lean kernel; hand model tied differentially (validated, not verified). Oracle-only (no model): client "
+                  "replay through the real clientplayback.ReplayHandler (every running mode x recorded mode; a replay in upstream mode "
+                  "of a flow recorded in another mode trips an assertion in HttpLayer.Start and writes nothing) and cases with a "
+                  "refusing ProxyAuth. An addon rewriting http->https between requestheaders and request is driven with the real "
+                  "MapRemote addon and modelled as an https request (which is what the repaired UpstreamAuth makes of it). TLS towards the origin IS "
                   "driven for https-scheme requests: an in-memory TLS server (ssl.MemoryBIO, certificate from a CertStore under "
                   ".work/c24, real TlsConfig addon answering tls_start_server) terminates the session that mitmproxy opens "
                   "directly (regular mode) or through its own CONNECT at the upstream proxy (upstream mode), and the decrypted "
@@ -278,7 +294,8 @@ class Check(PropertyCheck):
                     "mitmproxy.proxy.layers.http:HttpStream.handle_connect_upstream", "mitmproxy.proxy.layers.http:HttpStream.handle_connect_finish",
                     "mitmproxy.proxy.layers.http:HttpStream.make_server_connection",
                     "mitmproxy.proxy.layers.http:HttpStream.state_wait_for_request_headers",
-                    "mitmproxy.addons.tlsconfig:TlsConfig.tls_start_server", "mitmproxy.addons.next_layer:NextLayer._next_layer", "mitmproxy.addons.next_layer:NextLayer._setup_explicit_http_proxy"]
+                    "mitmproxy.addons.tlsconfig:TlsConfig.tls_start_server", "mitmproxy.addons.clientplayback:ReplayHandler.__init__",
+                    "mitmproxy.addons.mapremote:MapRemote.request", "mitmproxy.addons.next_layer:NextLayer._next_layer", "mitmproxy.addons.next_layer:NextLayer._setup_explicit_http_proxy"]
     trusted_base = ["harness/common/world.py as a stand-in for proxy/server.py's command interpreter",
                     "CPython ssl / OpenSSL as the in-memory TLS origin that decrypts what mitmproxy writes into TLS sessions",
                     "classification of upstream bytes: a connection opened to the upstream proxy's address carries direct traffic until its CONNECT is answered, tunnelled traffic afterwards"]
@@ -421,6 +438,7 @@ class Check(PropertyCheck):
         if need_tls: addons.append(tlsconfig.TlsConfig())
         addons.append(ua)
         with taddons.context(*addons) as tctx:
+            quiet_logging()
             if pa: tctx.configure(pa, proxyauth=self.CLIENT_CRED)
             if mr: tctx.configure(mr, map_remote=["|http://rw.example/|https://rw.example/"])
             for k, v in (case.get("opts") or {}).items(): setattr(tctx.options, k, v)
